@@ -51,16 +51,26 @@ class StateLedger(Family):
         n, nlong, roots = (250, 25, 60) if q else (4000, 400, 1200)
         if prop == "C10":
             roots *= 3
+        rolls = 40 if q else 1500
         if prop == "C12":
             nlong *= 2
+            rolls *= 6
         traces = []
-        for t in self._run(ctx, ["-n", str(n), "-seed", str(ctx.seed), "-roots", str(roots)], os.path.join(ctx.dir, "t-rand")):
-            t["src"] = "random" if t["name"].startswith("rand") else "root-family"
+        for t in self._run(ctx, ["-n", str(n), "-seed", str(ctx.seed), "-roots", str(roots), "-rolls", str(rolls)], os.path.join(ctx.dir, "t-rand")):
+            t["src"] = "random" if t["name"].startswith("rand") else ("rollback-history" if t["name"].startswith("roll") else "root-family")
             traces.append(t)
         for t in self._run(ctx, ["-n", str(nlong), "-seed", str(ctx.seed + 104729), "-long"], os.path.join(ctx.dir, "t-long")):
             t["src"] = "random-long"
             traces.append(t)
         return traces
+
+    def group(self, traces, t, prop):
+        # C10 verdicts relate the roots of a whole family of histories
+        if prop == "C10" and t["name"].startswith("root-"):
+            pre = t["name"].rsplit("-", 1)[0] + "-"
+            g = [x for x in traces if x["name"].startswith(pre) and x is not t]
+            return g + [t]
+        return [t]
 
     def rerun(self, ctx, plan):
         d = tempfile.mkdtemp(prefix="rerun-", dir=ctx.dir)
